@@ -43,6 +43,15 @@ Theorem c20_retry_result_is_last_attempt : forall pre a last,
 Proof. exact with_retries_last. Qed.
 Print Assumptions c20_retry_result_is_last_attempt.
 
+(* Complete() sends a request exactly when the batch holds at least one CALL, whatever byte size it has accumulated
+   (Delete(""), Put("", nil), DeleteRange("", "") have size 0): the emptiness test counts calls, not bytes. *)
+Theorem c20_complete_sends_iff_calls_nonempty : forall exec cfg n b,
+  (batch_calls cfg b <> [] ->
+     exists o p, complete exec cfg n b = (N.succ n, Sent n (to_proto cfg b) :: o, p)) /\
+  (cf_kind cfg = BWrite -> batch_calls cfg b = [] -> complete exec cfg n b = (n, [], false)).
+Proof. exact complete_sends_iff_calls_nonempty. Qed.
+Print Assumptions c20_complete_sends_iff_calls_nonempty.
+
 (* ... hence with distinct calls every callback fires exactly once *)
 Theorem c20_exactly_once_nodup : forall exec cfg evs s tr,
   exec_ok exec -> Forall (ev_kind_ok cfg) evs -> close_ok false evs ->
